@@ -6,6 +6,7 @@ import (
 	"fmt"
 	"go/token"
 	"go/types"
+	"strings"
 
 	"golang.org/x/tools/go/ssa"
 )
@@ -300,6 +301,11 @@ func (f *frame) chanRecvOp(ch Value, st *State) (Value, *Term) {
 		okFresh = TTrue
 	}
 	ok := Ite(nonEmpty, TTrue, Ite(closed, TFalse, okFresh))
+	if f.closable {
+		// a receive that had to wait and got no value: another goroutine closed the channel
+		cr := st.region(chReg("closed", ch.T), SArr(SBool))
+		st.setRegion(chReg("closed", ch.T), Store(cr, ref, Or(closed, And(Not(nonEmpty), Not(ok)))))
+	}
 	if ct, isChan := ch.T.Underlying().(*types.Chan); isChan && ct.Dir() == types.RecvOnly {
 		// receive-only signal channels (quit, Done, timers): a receive is modelled without consuming
 		x.note("receives on receive-only (signal) channels are modelled without consuming a value")
@@ -312,6 +318,25 @@ func (f *frame) chanRecvOp(ch Value, st *State) (Value, *Term) {
 
 func (f *frame) chanRecv(i *ssa.UnOp, ch Value, n *node, st *State) *State {
 	f.closable = f.x.isClosable(i.X)
+	// assertions attached to this blocking receive
+	if f.c != nil {
+		fld := chanField(i.X)
+		if j := strings.LastIndex(fld, "."); j >= 0 {
+			fld = fld[j+1:]
+		}
+		if fld != "" {
+			f.callSeq["recv "+fld]++
+			site := fmt.Sprintf("recv %s#%d", fld, f.callSeq["recv "+fld])
+			if as := f.c.CallAsserts[site]; len(as) > 0 {
+				f.x.hitSites[site] = true
+				for _, a := range as {
+					sc := f.x.newSpecCtx(f, n, st, f.x.entryState)
+					sc.anchor = i.Pos()
+					f.x.oblige("assert@"+site, a.Tags, st.pc, sc.evalBool(a.Expr), i.Pos(), a.Text)
+				}
+			}
+		}
+	}
 	val, ok := f.chanRecvOp(ch, st)
 	f.x.assume(st.pc, Implies(ok, f.chanInvTerm(i.X, val, n, st)), "channel content invariant")
 	if i.CommaOk {
@@ -457,10 +482,24 @@ func chanField(v ssa.Value) string {
 // chanInvTerm evaluates the declared content invariant of a channel for value v.
 func (f *frame) chanInvTerm(chv ssa.Value, v Value, n *node, st *State) *Term {
 	fld := chanField(chv)
-	if fld == "" {
-		return TTrue
-	}
 	var out []*Term
+	// a channel parameter with a declared content invariant
+	if f.c != nil && fld == "" {
+		if u, ok := chv.(*ssa.UnOp); ok && u.Op == token.MUL {
+			if a, ok := u.X.(*ssa.Alloc); ok {
+				for _, ri := range f.c.RecvInv {
+					if ri.Field == a.Comment {
+						sc := f.x.newSpecCtx(f, n, st, f.x.entryState)
+						sc.vars[ri.Var] = v
+						out = append(out, sc.evalBool(ri.C.Expr))
+					}
+				}
+			}
+		}
+	}
+	if fld == "" {
+		return And(out...)
+	}
 	for _, ci := range f.x.S.ChanInvs {
 		if ci.Field != fld {
 			continue
@@ -477,6 +516,16 @@ func (f *frame) chanInvTerm(chv ssa.Value, v Value, n *node, st *State) *Term {
 func (x *Exec) isClosable(v ssa.Value) bool {
 	fld := chanField(v)
 	if fld == "" {
+		// a channel parameter with a declared content invariant is one of the never-closed holders
+		if u, ok := v.(*ssa.UnOp); ok && x.C != nil {
+			if a, ok := u.X.(*ssa.Alloc); ok {
+				for _, ri := range x.C.RecvInv {
+					if ri.Field == a.Comment {
+						return false
+					}
+				}
+			}
+		}
 		return true
 	}
 	if x.closeSites == nil {
